@@ -121,6 +121,26 @@ def check_collection(case):
     if err is not None:
         raise Violation("map literal with keys sorted by the Tezos order rejected: %r" % (err.args,), case,
                         "sorted-map-rejected")
+    # big_map literals (storage / parameter values): same relation
+    from pytezos.michelson.types.base import MichelsonType
+    import pytezos.michelson.types  # noqa: F401
+    bcls = MichelsonType.match(rv.T("big_map", t, rv.T("nat")))
+    try:
+        bm = bcls.from_micheline_value(mlit)
+        back = bm.to_micheline_value(mode="readable", lazy_diff=True)
+    except Exception as e:
+        raise Violation("big_map literal with keys sorted by the Tezos order rejected: %r (type %s, literal %s)" % (e, _ts(t), mlit),
+                        case, "sorted-big_map-rejected")
+    if [rv.from_micheline(t, x["args"][0]) for x in back] != srt:
+        raise Violation("big_map literal changed key order/content: %s -> %s" % (mlit, back), case, "big_map-literal-order")
+    if len(srt) >= 2:
+        i0 = case.get("swap", 0) % (len(srt) - 1)
+        for what, keys in (("unsorted", lit[:i0] + [lit[i0 + 1], lit[i0]] + lit[i0 + 2:]), ("duplicate", lit[:i0 + 1] + lit[i0:])):
+            try:
+                bcls.from_micheline_value([{"prim": "Elt", "args": [k, {"int": "0"}]} for k in keys])
+            except Exception:
+                continue
+            raise Violation("big_map literal with %s keys accepted: %s (type %s)" % (what, keys, _ts(t)), case, what + "-big_map-accepted")
     if len(srt) >= 2:
         i = case.get("swap", 0) % (len(srt) - 1)
         bad = list(lit)
